@@ -57,6 +57,9 @@ use worterbuch_common::{
     parse_segments, topic,
 };
 
+#[cfg(feature = "verif")]
+mod verif;
+
 pub type Subscriptions = HashMap<SubscriptionId, Vec<KeySegment>>;
 pub type LsSubscriptions = HashMap<SubscriptionId, Vec<RegularKeySegment>>;
 
